@@ -299,8 +299,11 @@ def flush_rule(ctx, cfg, res, MAX):
         ip = X.Interp(cr, on_call=on_call)
         selfv, code = parser_ts.make_self(cr, names, svar, idx, hi)
         st = ip.start_state(fn, args=[X.Ref(X.Cell(selfv), (), True)])
+        buf0 = ip.to_term(st, field(ip, st, selfv, 'string_so_far'))
         outs = ip.run(st)
         ctx.absorb(ip, fn.path)
+        from .. import loopsum
+        outs = loopsum.summarise_all(ip, outs)
         ok = len(outs) == 1 and outs[0].kind == 'ret'
         if ok:
             o = outs[0]
@@ -309,10 +312,17 @@ def flush_rule(ctx, cfg, res, MAX):
                 obj = ip.load(o.state, obj.cell, obj.path)
             sv = variant_of(ip, o.state, field(ip, o.state, obj, 'state'))
             ok = (sv is not None and sv[0] == res.init[0] and field(ip, o.state, obj, 'pending_idx') == I(0) and field(ip, o.state, obj, 'escape_code') == I(0))
+            # the buffer afterwards: what it held, then pending[0 .. idx) - however the copy is written
+            buf = ip.to_term(o.state, field(ip, o.state, obj, 'string_so_far'))
+            parts = list(buf[1]) if buf[0] == 'list' else [('slice', buf, I(0), ('len', buf))]
+            parts = [p_ for p_ in parts if not (p_[0] == 'slice' and p_[2] == p_[3])]
+            head = [('slice', buf0, I(0), ('len', buf0))] if buf0[0] != 'list' else [p_ for p_ in buf0[1] if not (p_[0] == 'slice' and p_[2] == p_[3])]
+            tail = parts[len(head):] if parts[:len(head)] == head else None
+            copied = tail if tail is not None else parts
             if idx > 0:
-                ok = ok and copied == [('slice', T.var('pend0'), I(0), I(idx))]
+                ok = ok and tail == [('slice', T.var('pend0'), I(0), I(idx))]
             else:
-                ok = ok and all(cp[0] == 'slice' and cp[2] == cp[3] for cp in copied)
+                ok = ok and tail == []
         ctx.obligation(ok)
         (ctx.ok if ok else ctx.violation)('C08.R3', 'C08.R3/flush_pending/copies-buffer-and-resets', fn.path, fn.site(), {'partition': (svar, idx), 'copied': [T.show(c) for c in copied]}, cfg)
 
